@@ -62,6 +62,14 @@ pub fn main(args: &[String]) -> i32 {
         "worker" => worker(args),
         "replay" => replay(&args[1]),
         "determinism" => determinism(&args[1..]),
+        "crashprobe" => {
+            // run one case index in this process (the caller watches how it dies)
+            let p = props::get(&args[1]).expect("property");
+            let tier = if args[2] == "thorough" { Tier::Thorough } else { Tier::Quick };
+            let mut rt = Rt::new();
+            let _ = p.run_index(args[4].parse().unwrap(), args[3].parse().unwrap(), tier, &mut rt);
+            0
+        }
         "fidelity" => fidelity(&args[1..]),
         "show" => show(&args[1], args[2].parse().unwrap()),
         "parse-report" => {
@@ -155,7 +163,11 @@ fn worker(args: &[String]) -> i32 {
                     rep.violations
                 }
                 Err(e) => {
-                    rt.stats.harness_errors.push(e);
+                    let sig = e.strip_prefix("SIGNAL ").and_then(|r| r.split_whitespace().next()).and_then(|s| s.parse::<i32>().ok());
+                    match sig {
+                        Some(s) if [libc::SIGSEGV, libc::SIGBUS, libc::SIGILL, libc::SIGABRT, libc::SIGFPE].contains(&s) => rt.stats.crashes.push((idx, s)),
+                        _ => rt.stats.harness_errors.push(e),
+                    }
                     vec![]
                 }
             }
@@ -226,6 +238,7 @@ fn merge_stats(into: &mut Stats, s: Stats) {
     }
     into.nondeterminism.extend(s.nondeterminism);
     into.harness_errors.extend(s.harness_errors);
+    into.crashes.extend(s.crashes);
     into.interleavings.extend(s.interleavings);
     into.histories.extend(s.histories);
     into.nontrivial.extend(s.nontrivial);
@@ -291,7 +304,13 @@ fn run_index_forked(p: &dyn Prop, idx: u64, seed: u64, tier: Tier) -> Result<Ind
     unsafe { libc::close(fds[0]) };
     let mut status = 0i32;
     unsafe { libc::waitpid(pid, &mut status, 0) };
-    let mut rep: IndexReport = from_json(&String::from_utf8_lossy(&buf)).map_err(|e| format!("child for index {} died (status {}): {}", idx, status, e))?;
+    let mut rep: IndexReport = from_json(&String::from_utf8_lossy(&buf)).map_err(|e| {
+        if libc::WIFSIGNALED(status) {
+            format!("SIGNAL {} child for index {} was killed", libc::WTERMSIG(status), idx)
+        } else {
+            format!("child for index {} died (status {}): {}", idx, status, e)
+        }
+    })?;
     let [a, b, c, dd] = std::mem::take(&mut rep.sets);
     rep.stats.interleavings = a.into_iter().collect();
     rep.stats.histories = b.into_iter().collect();
@@ -301,6 +320,8 @@ fn run_index_forked(p: &dyn Prop, idx: u64, seed: u64, tier: Tier) -> Result<Ind
 }
 
 struct Merged {
+    /// (index, signal) of workers killed by a fatal signal raised by the code under test
+    crashes: Vec<(u64, i32)>,
     stats: Stats,
     violations: Vec<Violation>,
     listing: Vec<(u64, u64)>,
@@ -345,6 +366,7 @@ fn run_workers(id: &str, tier: Tier, seed: u64, nw: usize, listing: bool) -> Mer
         children.push(child);
     }
     let mut harness = vec![];
+    let mut crashes: Vec<(u64, i32)> = vec![];
     let stall = Duration::from_secs(180);
     let mut alive: Vec<bool> = vec![true; nw];
     while alive.iter().any(|a| *a) {
@@ -358,7 +380,19 @@ fn run_workers(id: &str, tier: Tier, seed: u64, nw: usize, listing: bool) -> Mer
                     alive[w] = false;
                     if !st.success() {
                         let at = beats[w].lock().unwrap().1.clone();
-                        harness.push(format!("worker {} died ({}) while running index {}", w, st, at));
+                        use std::os::unix::process::ExitStatusExt;
+                        let sig = st.signal().unwrap_or(0);
+                        // SIGSEGV / SIGBUS / SIGILL / SIGABRT / SIGFPE: the engine itself crashed (memory
+                        // unsafety, abort on a double panic, stack exhaustion) - a candidate violation, to be
+                        // confirmed by re-running that index in a fresh process.  Anything else (SIGKILL = out of
+                        // memory, ...) stays a harness error.
+                        if [libc::SIGSEGV, libc::SIGBUS, libc::SIGILL, libc::SIGABRT, libc::SIGFPE].contains(&sig) {
+                            if let Ok(i) = at.parse::<u64>() {
+                                crashes.push((i, sig));
+                            }
+                        } else {
+                            harness.push(format!("worker {} died ({}) while running index {}", w, st, at));
+                        }
                     }
                 }
                 Ok(None) => {
@@ -386,10 +420,10 @@ fn run_workers(id: &str, tier: Tier, seed: u64, nw: usize, listing: bool) -> Mer
         let _ = r.join();
     }
     let reports = std::mem::take(&mut *reports.lock().unwrap());
-    if reports.len() != nw && harness.is_empty() {
+    if reports.len() != nw && harness.is_empty() && crashes.is_empty() {
         harness.push(format!("{} of {} workers reported", reports.len(), nw));
     }
-    let mut m = Merged { stats: Stats::default(), violations: vec![], listing: vec![], harness };
+    let mut m = Merged { crashes, stats: Stats::default(), violations: vec![], listing: vec![], harness };
     for r in reports {
         merge_stats(&mut m.stats, r.stats);
         for (name, path) in r.files {
@@ -404,6 +438,8 @@ fn run_workers(id: &str, tier: Tier, seed: u64, nw: usize, listing: bool) -> Mer
         m.violations.extend(r.violations);
         m.listing.extend(r.listing);
     }
+    let more: Vec<(u64, i32)> = m.stats.crashes.clone();
+    m.crashes.extend(more);
     m.violations.sort_by_key(|v| v.idx);
     m.listing.sort();
     let _ = std::fs::remove_dir_all(&scratch);
@@ -542,6 +578,19 @@ fn shrink_in_child(p: &dyn Prop, v: &Violation, seed: u64) -> Violation {
     from_json::<Violation>(&String::from_utf8_lossy(&buf)).unwrap_or_else(|_| v.clone())
 }
 
+/// does running this case index kill a fresh process with a fatal signal?  (None = it survives)
+fn crash_probe(id: &str, tier: Tier, seed: u64, idx: u64) -> Option<i32> {
+    use std::os::unix::process::ExitStatusExt;
+    let exe = std::env::current_exe().unwrap();
+    let st = Command::new(exe)
+        .args(["crashprobe", id, tier.name(), &seed.to_string(), &idx.to_string()])
+        .stdout(Stdio::null())
+        .stderr(Stdio::null())
+        .status()
+        .ok()?;
+    st.signal()
+}
+
 fn write_replay(v: &Violation, minimised: bool, original_ops: usize) -> PathBuf {
     let dir = out_root().join("replays");
     let _ = std::fs::create_dir_all(&dir);
@@ -590,6 +639,22 @@ pub fn replay(file: &str) -> i32 {
     };
     let doc: serde_json::Value = from_json(&text).expect("replay file is JSON");
     let prop = doc["property"].as_str().unwrap_or("");
+    if doc["class"].as_str() == Some("crash") {
+        // a crash of the engine cannot be replayed from inside the dying process: re-run the case index
+        let tier = if doc["tier"].as_str() == Some("thorough") { Tier::Thorough } else { Tier::Quick };
+        return match crash_probe(prop, tier, doc["seed"].as_u64().unwrap_or(0), doc["index"].as_u64().unwrap_or(0)) {
+            Some(sig) => {
+                println!("REPRODUCED class=crash property={}", prop);
+                println!("detail: the process running case index {} was killed by signal {}", doc["index"], sig);
+                println!("VIOLATION property={} replay={}", prop, file);
+                1
+            }
+            None => {
+                println!("NOT-REPRODUCED property={} (the process survived this case index)", prop);
+                0
+            }
+        };
+    }
     let p = match props::get(prop) {
         Some(p) => p,
         None => {
@@ -691,6 +756,30 @@ pub fn check(p: &dyn Prop, tier: Tier, seed: u64) -> i32 {
                 v.idx,
                 path.display()
             ));
+        }
+    }
+    // engine crashes: confirmed twice in fresh processes, then reported with an index-based replay file
+    let mut crash_sites = merged.crashes.clone();
+    crash_sites.sort();
+    crash_sites.dedup();
+    for (idx, sig) in crash_sites.iter().take(2) {
+        let a = crash_probe(meta.id, tier, seed, *idx);
+        let b = crash_probe(meta.id, tier, seed, *idx);
+        if a.is_some() && a == b {
+            let dir = out_root().join("replays");
+            let _ = std::fs::create_dir_all(&dir);
+            let path = dir.join(format!("{}-{}-{}-crash.json", meta.id, seed, idx));
+            let doc = json!({
+                "property": meta.id, "class": "crash", "seed": seed, "index": idx, "tier": tier.name(), "signal": a,
+                "detail": format!("the process running case index {} of {} dies with signal {} (reproduced twice in fresh processes): memory unsafety, an abort or stack exhaustion in the engine", idx, meta.id, a.unwrap()),
+                "minimised": false,
+                "note": "replayed by re-running the case index (bin/check show <property> <index> prints the case); a dying process cannot record its schedule"
+            });
+            std::fs::write(&path, serde_json::to_string_pretty(&doc).unwrap()).unwrap();
+            println!("violation class=crash index={} : the engine kills the process (signal {}), reproduced twice in fresh processes", idx, a.unwrap());
+            violation_lines.push(format!("VIOLATION property={} replay={}", meta.id, path.display()));
+        } else {
+            harness.push(format!("a worker died with signal {} at index {} but the crash did not reproduce in a fresh process", sig, idx));
         }
     }
     for (k, n) in &known_hits {
